@@ -51,9 +51,16 @@ fn judge_solution(family: &str, problem: &PProblem, json: &Value) -> Vec<(String
     let mut seen = HashSet::new();
     oracle::check(problem, json, &OracleOptions { tol: if family == "scale" { 1. } else { 0. } })
         .into_iter()
-        .filter(|f| seen.insert(f.rule.clone()))
-        .map(|f| (f.rule, f.what))
+        // a tour over an unreachable leg is named by problem and leg (as C01 does): "<rule>:<problem>:<leg>|<family>" is split by `key_of`
+        .map(|f| (super::c01::finding_key(&f, family, problem), f.what))
+        .filter(|(k, _)| seen.insert(k.clone()))
         .collect()
+}
+
+/// Key of a finding under an axis: the recorded unreachable-leg defect keeps its C01 key (problem and leg), whatever the
+/// interruption point was; everything else is "<axis>:<rule>:<family>".
+fn key_of(axis: &str, rule_key: &str) -> String {
+    if rule_key.starts_with("C01:unreachable-leg:") { rule_key.to_string() } else { format!("{axis}:{rule_key}") }
 }
 
 fn quota_axis(family: &str, problem: &PProblem, cfg: &SolveCfg, report: &mut Report) {
@@ -78,7 +85,7 @@ fn quota_axis(family: &str, problem: &PProblem, cfg: &SolveCfg, report: &mut Rep
         match solve(problem, cfg, Some(quota.clone() as Arc<dyn Quota>), None) {
             Ok(solved) => {
                 for (rule, what) in judge_solution(family, problem, &solved.json) {
-                    report.violation(Violation::new(format!("interrupted:{rule}:{family}"), format!("quota fired at poll {k} of {n}: {what}"), scen.clone()));
+                    report.violation(Violation::new(key_of("interrupted", &rule), format!("quota fired at poll {k} of {n}: {what}"), scen.clone()));
                 }
                 if k % 97 == 3 {
                     let unassigned = solved.json.get("unassigned").and_then(|u| u.as_array()).map_or(0, |u| u.len());
@@ -115,7 +122,7 @@ fn time_axis(ctx: &RunCtx, family: &str, problem: &PProblem, cfg: &SolveCfg, rep
         match r {
             Ok(solved) => {
                 for (rule, what) in judge_solution(family, problem, &solved.json) {
-                    report.violation(Violation::new(format!("time-limit:{rule}:{family}"), format!("deadline at clock read {j}: {what}"), scen.clone()));
+                    report.violation(Violation::new(key_of("time-limit", &rule), format!("deadline at clock read {j}: {what}"), scen.clone()));
                 }
             }
             Err(e) => {
@@ -151,7 +158,7 @@ fn generation_axis(family: &str, problem: &PProblem, cfg: &SolveCfg, report: &mu
                     ));
                 }
                 for (rule, what) in judge_solution(family, problem, &solved.json) {
-                    report.violation(Violation::new(format!("generation-limit:{rule}:{family}"), what, scen.clone()));
+                    report.violation(Violation::new(key_of("generation-limit", &rule), what, scen.clone()));
                 }
             }
             // a limit of zero is outside of the property (it speaks of a positive limit)
@@ -212,7 +219,7 @@ pub fn replay(ctx: &RunCtx, scenario: &Value) -> Result<Vec<Violation>, String> 
             match solve(&problem, &cfg, Some(quota as Arc<dyn Quota>), None) {
                 Ok(solved) => {
                     for (rule, what) in judge_solution(&family, &problem, &solved.json) {
-                        report.violation(Violation::new(format!("interrupted:{rule}:{family}"), what, scenario.clone()));
+                        report.violation(Violation::new(key_of("interrupted", &rule), what, scenario.clone()));
                     }
                 }
                 Err(e) => {
